@@ -309,6 +309,10 @@ func (m *Morass) Clear() error {
 	m.pos = 0
 	m.len = 0
 	m.fast = false
+	if m.chunk != nil {
+		// A partially drained in-memory cycle leaves its values in the chunk.
+		m.chunk = m.chunk[:0]
+	}
 	select {
 	case m.chunk = <-m.pool:
 		if m.chunk == nil {
